@@ -265,7 +265,31 @@ def rule_5(ctx):
     sup = [c for c in flow.calls_in(init) if isinstance(c.func, ast.Attribute) and c.func.attr == '__init__']
     ok = bool(sup) and sup[0].args and ast.unparse(sup[0].args[0]).endswith('.namespace')
     ctx.expect(ok, init, 'context uses the evaluator namespace', 'the evaluation context does not receive the evaluator\'s function table')
-    ctx.floor(6, 'registration/visibility facts')
+    # two evaluators created around a registration (one world, the constructor interpreted as written)
+    from xlsa.guards import World
+    world = World()
+    registry = {'SUM': Ref('pkg:xlfunctions.math:SUM')}
+    world.globals['pkg:xlfunctions.xl:FUNCTIONS'] = registry
+    model = Rec(cls='pkg:model:Model', cells={}, defined_names={}, ranges={}, formulae={})
+    ev_init = em.func('Evaluator.__init__')
+
+    def new_evaluator():
+        it = Interp(ctx.a, em, {}, inline_pkg=True, world=world)
+        e = it._construct('pkg:evaluator:Evaluator', [model], {})
+        if not isinstance(e, Rec) or not isinstance(e.f.get('namespace'), dict) or any(x[0] == '<init-unmodelled>' for x in it.out.events):
+            raise Unmodelled('Evaluator(model): namespace of the constructed evaluator')
+        return e
+    e1 = new_evaluator()
+    registry['LATER'] = Ref('pkg:user:LATER')          # a function registered after the first evaluator exists
+    e2 = new_evaluator()
+    ctx.expect('LATER' in e2.f['namespace'] and 'SUM' in e2.f['namespace'], ev_init, 'a function registered later is visible to evaluators created afterwards',
+               f'an evaluator created after a registration has the functions {sorted(e2.f["namespace"])}: it does not see the function '
+               'registered between the two constructions (a snapshot of the registry is shared instead of copied per evaluator)')
+    ctx.expect(e1.f['namespace'] is not registry and e2.f['namespace'] is not registry and e1.f['namespace'] is not e2.f['namespace'], ev_init,
+               'every evaluator owns a copy of the function table',
+               'evaluators share one function table object (with each other or with the module-level registry): a function added to one '
+               'namespace leaks into the others')
+    ctx.floor(8, 'registration/visibility facts')
 
 
 def rule_6(ctx):
